@@ -164,14 +164,6 @@ Proof.
   intros H. destruct (wake1_pc k g l) as [[_ [Hp _]]|[_ E]]; [congruence|exact E].
 Qed.
 
-(* ---------- the shape of a thread: operation and pc fit together ---------- *)
-Definition pc_ok (o : lbq_op) (p : lbq_pc) : bool :=
-  match p with
-  | RRLock | RDefer | RRet => negb (is_qop o)
-  | RBody => match o with OAsSlice => true | _ => false end
-  | _ => is_qop o
-  end.
-
 (* ---------- invariant, part 1 ---------- *)
 Definition rd (l : lbq_loc) : bool := in_rcs (l_pc l).
 
